@@ -83,7 +83,7 @@ def _blocks(tree):
                 yield node, fld, b
 
 
-def canon_statements(tree: ast.AST) -> ast.AST:
+def canon_statements(tree: ast.AST, loop_guards: bool = False) -> ast.AST:
     changed = True
     while changed:
         changed = False
@@ -98,7 +98,7 @@ def canon_statements(tree: ast.AST) -> ast.AST:
                     st.body = inner.body
                     changed = True
             # a loop body that ends in `if T: BODY`  ->  guard with continue
-            if isinstance(node, (ast.For, ast.While)) and fld == "body" and len(b) >= 1:
+            if loop_guards and isinstance(node, (ast.For, ast.While)) and fld == "body" and len(b) >= 1:
                 last = b[-1]
                 if isinstance(last, ast.If) and not last.orelse and len(b) >= 1 and not any(isinstance(x, (ast.Continue,)) for x in last.body[-1:]) \
                         and len(last.body) >= 1:
